@@ -67,6 +67,7 @@ struct MImg {
     bool  read_while_empty = false; // read through the slab interface before it had any data (this open of the file)
     bool  slab_touched = false, chunk_written = false; // per open of the file: which interface has been used on it
     bool  has_lut = false;
+    int   lut_req = -1; // interlace asked for with GRreqlutil since the file was opened (-1: never, palette reads are pixel interlaced)
     std::vector<uint8_t> lut;  // 256 x 3, entry-major (pixel interlace)
     int32 ri = FAIL;
     int   esz() const { return PTS[nt].size; }
@@ -162,7 +163,9 @@ struct Raster : Profile {
                 case 6:
                     p.ops.push_back(mkop(0, names[k], {d, (int64_t)(r.next() >> 16), (int64_t)r.below(3)}));
                     break;
-                case 7:
+                case 7: // palette read: interlace 0..2, or 3 = without asking for one (what was asked for last on this id, else pixel)
+                    p.ops.push_back(mkop(0, names[k], {d, (int64_t)r.below(4)}));
+                    break;
                 case 9:
                     p.ops.push_back(mkop(0, names[k], {d, (int64_t)r.below(3)}));
                     break;
@@ -215,6 +218,7 @@ struct Raster : Profile {
         for (int i = 0; i < NIMG; i++) {
             s.im[i].ri            = FAIL;
             s.im[i].chunk_read_il = MFGR_INTERLACE_PIXEL; // the requested read interlace lives with the open file's image record
+            s.im[i].lut_req       = -1;                   // and so does the one asked for for the palette
             s.im[i].read_while_empty = false;
             s.im[i].slab_touched = s.im[i].chunk_written = false;
         }
@@ -373,8 +377,17 @@ struct Raster : Profile {
             return;
         if (nc != 3 || ((nt & 0xfff) != DFNT_UINT8 && (nt & 0xfff) != DFNT_UCHAR8) || ne != 256)
             s.ctx.fail("lut-mismatch", "lut-mismatch:info", strf("GRgetlutinfo(img%d): ncomp %d type %d entries %d, written 3/uint8/256 (%s)", i, (int)nc, (int)nt, (int)ne, when));
-        if (GRreqlutil(sel(s, i), il) == FAIL)
-            s.ctx.fail("lut-failed", "lut-failed:reqil", "GRreqlutil failed");
+        if (il == 3) {
+            // no request: the palette comes in the interlace asked for last in this open of the file, pixel interlace if none was
+            (void)sel(s, i);
+            il = m.lut_req < 0 ? MFGR_INTERLACE_PIXEL : m.lut_req;
+            s.ctx.probe("lut-read-without-request");
+        }
+        else {
+            if (GRreqlutil(sel(s, i), il) == FAIL)
+                s.ctx.fail("lut-failed", "lut-failed:reqil", "GRreqlutil failed");
+            m.lut_req = il;
+        }
         std::vector<uint8_t> buf(768 + 16, 0x5A);
         if (GRreadlut(lut, buf.data()) == FAIL)
             s.ctx.fail("lut-failed", "lut-failed:read", strf("GRreadlut(img%d) failed (%s)", i, when));
@@ -491,6 +504,7 @@ struct Raster : Profile {
                                       HEstring((hdf_err_code_t)HEvalue(1))));
                     m.exists = true;
                     m.ri     = ri;
+                    m.lut_req = -1;
                     m.pix.assign((size_t)m.w * (size_t)m.h * (size_t)m.nc * (size_t)m.esz(), 0);
                     m.wr.assign((size_t)m.w * (size_t)m.h, 0);
                     m.fill.assign((size_t)m.nc * (size_t)m.esz(), 0);
@@ -637,7 +651,7 @@ struct Raster : Profile {
                 if (!m.exists || !m.has_lut)
                     done = false;
                 else
-                    check_lut(s, di, modn(o.arg(1), 3), "in session");
+                    check_lut(s, di, o.arg(1) == 3 ? 3 : modn(o.arg(1), 3), "in session");
             }
             else if (k == "dfr8") {
                 MLegacy &L = s.leg[modn(o.arg(0), NLEG)];
